@@ -138,6 +138,29 @@ def copies_faithful(m):
     return None
 
 
+def shallow_copies_faithful(m, ss):
+    """copy() of any object — also of template entries of a fetch result — has exactly the original's slots"""
+    roots = [m]
+    try:
+        roots.append(m.fetch(sources=ss))
+    except (Exception, freephil.Sorry):
+        pass
+    for root in roots:
+        for o in reach(root).values():
+            if not isinstance(o, (freephil.scope, freephil.definition)):
+                continue
+            c = o.copy()
+            for sl in o.__slots__:
+                a, b = getattr(o, sl, None), getattr(c, sl, None)
+                if a is not b and a != b:
+                    return "copy() of %s %r differs from the original in slot %s (%r vs %r)" % (
+                        type(o).__name__, o.name, sl, b, a)
+            for level in (0, 2, 3):
+                if c.as_str(attributes_level=level) != o.as_str(attributes_level=level):
+                    return "copy() of %s %r prints differently at attributes_level=%d" % (type(o).__name__, o.name, level)
+    return None
+
+
 def assignments_local(rng, m, ss):
     """assigning fields of a shallow copy or of a fetch result never changes the object it was made from"""
     before = m.as_str(attributes_level=3)
@@ -209,7 +232,7 @@ def run(ctx):
                 break
         cls = None
         if f is None:
-            f = copies_faithful(m)
+            f = copies_faithful(m) or shallow_copies_faithful(m, ss)
         if f is None:
             f, cls = assignments_local(rng, m, ss)
         if f:
